@@ -47,6 +47,7 @@ func fromCanvas(m canvas.Matrix) mat {
 var (
 	p1Data = []float64{1, 0, 0, 1, 2, 2, 0, 2, 4, 2, 1.5, 0, 1, 4, 32, 0, 0, 32} // M0 0L2 0Q2 1.5 0 1z
 	p2Data = []float64{1, 0, 0, 1, 2, 4, 0, 2, 2, 4, 1, 2}                       // M0 0L4 0L4 1 (open, length 5)
+	p3Data = []float64{1, 0, 0, 1, 2, 0.5, 0, 2}                                 // M0 0L0.5 0 (shorter than every dash element)
 )
 
 var (
@@ -183,6 +184,7 @@ func alphabet() []letter {
 		z("SetZIndex(0)", 0),
 		drawPath("DrawPath(1,2, M0 0L2 0Q2 1.5 0 1z)", 1, 2, p1Data),
 		drawPath("DrawPath(-2,0.5, M0 0L4 0L4 1)", -2, 0.5, p2Data),
+		drawPath("DrawPath(0,0, M0 0L0.5 0)", 0, 0, p3Data),
 		{"DrawText(2,3,\"Hi\")", func(x *exec) { x.ctx.DrawText(2, 3, theText) }, func(m *mrun) { m.drawText(2, 3) }},
 		{"DrawImage(1,1.5, 3x2px, 2px/mm)", func(x *exec) { x.ctx.DrawImage(1, 1.5, theImage, canvas.DPMM(imgRes)) }, func(m *mrun) { m.drawImage(1, 1.5, imgW, imgH, imgRes) }},
 		{"MoveTo(1,1)", func(x *exec) { x.ctx.MoveTo(1, 1) }, func(m *mrun) { m.pend.MoveTo(1, 1) }},
